@@ -335,7 +335,7 @@ def gen_c11(rng, t):
     return out
 
 
-prop("C11", ["c11_first_ctx", "c11_step", "c11_partition", "c11_bound", "c11_useless_rejected"], ["ENC"], gen_c11, [orc_c11])
+prop("C11", ["c11_first_ctx", "c11_first_ctx_ext", "c11_step", "c11_partition", "c11_bound", "c11_useless_rejected"], ["ENC"], gen_c11, [orc_c11])
 
 
 # ------------------------------------------------------------------------------------------------
@@ -516,7 +516,7 @@ def gen_c15(rng, t):
     return out
 
 
-prop("C15", ["c15_link", "c15_invariant", "c15_disabled", "c15_sub_only_same", "c15_after_reset_or_bcast", "c15_max"],
+prop("C15", ["c15_link", "c15_link_ext", "c15_invariant", "c15_disabled", "c15_sub_only_same", "c15_after_reset_or_bcast", "c15_max"],
      ["ENC", "ENCX"], gen_c15, [orc_c15])
 
 
